@@ -90,7 +90,7 @@ def runCase (line : String) : IO PUnit := do
     | .error s => lineOut id s
     | .ok toks =>
       match parse toks with
-      | .ok stmts => lineOut id ("PARSE ok " ++ "|".intercalate (stmts.map stmtS))
+      | .ok stmts => lineOut id ("PARSE ok " ++ "~".intercalate (stmts.map stmtS))
       | .err e => lineOut id ("PARSE err " ++ perrS e)
       | .fuel => lineOut id "FUEL parse"
   | "hist" =>
